@@ -3,7 +3,7 @@ from engine.qb import (AnalysisBroken, estr, unwrap, cval, walk, last_field, fie
                        atoms_of, root_var, lockset)
 from rules.common import field_is, has_call, derives
 
-UNITS = ['lib/log_thread.c', 'lib/log.c', 'lib/log_file.c']
+UNITS = ['lib/log_thread.c', 'lib/log.c', 'lib/log_file.c', 'lib/log_syslog.c', 'lib/log_blackbox.c', 'lib/log_format.c']
 DECIDES = ('Decides the lock discipline on the queue state, append-then-post, that the worker only exits when drained, that '
            'fini stops the thread before dismantling targets, that control calls bracket their work with pause/resume, that the two '
            'teardown sequences leave the same module state, and that lock users tolerate "not started"; ordering/loss over all '
@@ -17,8 +17,9 @@ RULES = {
     'R6': 'every sequence that destroys the thread lock leaves the module state reset (lock pointer NULL, wthread_active false)',
     'R8': 'queued records are written to the targets (qb_log_thread_log_write) only while holding logt_wthread_lock, the lock control operations take through pause/resume',
     'R7': 'every lock of logt_wthread_lock outside the worker is preceded by a test that the lock exists / the thread is active',
+    'R9': 'the drain at fini really writes: qb_log_fini clears logger_inited before it stops the thread, so nothing the logging thread calls to write a record (the targets\' logger functions and what they call inside the library) may refuse or return early on !logger_inited - or fini stops the thread first',
 }
-FLOORS = {'R1': 11, 'R2': 5, 'R3': 4, 'R4': 5, 'R5': 4, 'R6': 3, 'R7': 3, 'R8': 2}
+FLOORS = {'R1': 11, 'R2': 5, 'R3': 4, 'R4': 5, 'R5': 4, 'R6': 3, 'R7': 3, 'R8': 2, 'R9': 3}
 
 LOCK = 'logt_wthread_lock'
 GUARDED = ('logt_print_finished_records', 'logt_memory_used', 'logt_dropped_messages')
@@ -61,6 +62,7 @@ def run(ctx):
     r6(ctx, fns)
     r7(ctx, fns)
     r8(ctx, fns)
+    r9(ctx)
 
 
 def _is_post(ev):
@@ -291,3 +293,49 @@ def r8(ctx, fns):
                       'a queued record is written to the targets without %s: a control operation (disable/close/reload) can run concurrently with the target\'s logger' % LOCK)
     if n < 2:
         raise AnalysisBroken('R8: write sites = %d' % n)
+
+
+def r9(ctx):
+    prog = ctx.prog
+    fini = prog.fn('qb_log_fini')
+    clr = [st for st in fini.events('STORE') if estr(st.lhs) == 'logger_inited' and cval(unwrap(st.rhs)) == 0]
+    stop = list(fini.calls('qb_log_thread_stop'))
+    if not clr or not stop:
+        raise AnalysisBroken('qb_log_fini: logger_inited store / thread stop not found')
+    if all(fini.ev_dominates(stop[0], c) for c in clr):
+        ctx.ok('R9', 'fini:thread-stopped-before-flag-cleared', stop[0], 'the thread is stopped (and has drained) before logger_inited is cleared')
+        return
+    # what the logging thread runs for a record: the logger slot implementations and their callees inside the library
+    impls = set(prog.slots().get('qb_log_target::logger', set())) | set(prog.slots().get('qb_log_target::vlogger', set()))
+    if not impls:
+        raise AnalysisBroken('no target logger implementations found')
+    # the library's own diagnostics (qb_util_log / qb_util_perror inside a logger) re-enter the logging API: that is logging
+    # *about* the write, not the write, and being refused after fini has begun is the right answer there
+    SELF_LOG = {'qb_log_real_', 'qb_log_real_va_', 'qb_log_from_external_source', 'qb_log_from_external_source_va', 'qb_log_from_external_source_va2',
+                'qb_log_callsite_get', 'qb_log_callsite_get2'}
+    seen, work = set(), [(n, 0) for n in sorted(impls)]
+    while work:
+        n, dpt = work.pop()
+        if n in seen or dpt > 3 or n in SELF_LOG:
+            continue
+        try:
+            g = prog.fn(n)
+        except Exception:
+            continue
+        seen.add(n)
+        for ev in g.events('CALL'):
+            if ev.callee and '::' not in ev.callee:
+                work.append((ev.callee, dpt + 1))
+    checked = 0
+    for n in sorted(seen):
+        g = prog.fn(n)
+        if not g.file.startswith('lib/'):
+            continue
+        checked += 1
+        bad = [b for b in g.blocks.values() if b.cond is not None and any(nd.get('k') == 'var' and nd.get('n') == 'logger_inited' for nd in walk(b.cond))]
+        ctx.check('R9', 'drain-path-ignores-inited-flag:%s' % n, not bad, '%s:%d (%s)' % (g.file, bad[0].term_ln if bad else g.line, n),
+                  '%s does not look at logger_inited' % n,
+                  '%s tests logger_inited, but the logging thread calls it (through a target\'s logger) while qb_log_fini - which has already cleared the flag - waits for '
+                  'the queue to be written out: every record still queued at fini is dequeued and thrown away instead of written' % n)
+    if checked < 3:
+        raise AnalysisBroken('only %d functions on the logging thread\'s write path were found' % checked)
